@@ -277,7 +277,7 @@ class Gen:
             t = (t + dt) % U64
             events.append([1, 0, off, t, 0, 0, 10 ** 9 if kind != "ms" else 10 ** 6])
         return {"op": 20, "cfg": list(DEFAULT_CFG), "noise": [0], "period": -1, "stride": 500, "events": events,
-                "style": "long_" + kind, "oneway": False}
+                "style": "long_" + kind, "oneway": False, "regular": [1 << 40, dt, 0, off, 0, 0]}
 
     # ---- whole system (monitor only) ----------------------------------------------------------
     def system(self, n, style=None):
@@ -351,6 +351,9 @@ def coq_case(case, out):
     if op in (20, 21):
         n = len(case["events"])
         orc, dumps = o[:2 * n], o[2 * n:]
+        if "regular" in case:    # compact encoding (model op 22): the events are rebuilt inside Coq
+            dumps = [x for j, x in enumerate(dumps) if j % 4 != 3]
+            return "(22%%Z, %s)" % zl(case["cfg"] + [case["period"], case["stride"]] + case["regular"] + orc), zl(dumps)
         inp = case["cfg"] + case["noise"] + [case["period"], case["stride"]]
         for i, e in enumerate(case["events"]):
             if e[0] == 1:
@@ -377,6 +380,11 @@ def history_stats(case, out):
 
 
 def main():
+    try:      # the cases files contain long list literals: give coqc a deep stack
+        import resource
+        resource.setrlimit(resource.RLIMIT_STACK, (resource.RLIM_INFINITY, resource.RLIM_INFINITY))
+    except Exception:
+        pass
     c = vplib.Check("C06")
     c.run_gate()
     g = Gen(c.rng)
